@@ -81,12 +81,32 @@ def _sites_in_function(fn, qual):
     """Store sites directly inside fn (not inside nested function definitions)."""
     sites = []
     parents = {}
+    outer_names = set()      # names declared nonlocal / global here: rebinding them is state that outlives the activation
+
+    def own_nodes(n):
+        yield n
+        for ch in ast.iter_child_nodes(n):
+            if isinstance(ch, (ast.FunctionDef, ast.AsyncFunctionDef, ast.ClassDef, ast.Lambda)):
+                continue
+            yield from own_nodes(ch)
+
+    for st0 in fn.body:
+        if isinstance(st0, (ast.FunctionDef, ast.AsyncFunctionDef, ast.ClassDef)):
+            continue
+        for n in own_nodes(st0):
+            if isinstance(n, (ast.Nonlocal, ast.Global)):
+                outer_names.update(n.names)
 
     def walk(body, chain):
         for idx, st in enumerate(body):
             parents[id(st)] = (body, idx, chain)
             if isinstance(st, (ast.FunctionDef, ast.AsyncFunctionDef, ast.ClassDef)):
                 continue
+            if outer_names:
+                for sub in [st] if not hasattr(st, "body") else list(_stmt_exprs(st)):
+                    for n in own_nodes(sub):
+                        if isinstance(n, ast.Name) and isinstance(n.ctx, (ast.Store, ast.Del)) and n.id in outer_names:
+                            sites.append((Site(qual, st, "outer-scope-rebind", "<outer>" + n.id, _src(st)), st))
             for sub in _stmt_exprs(st):
                 for n in ast.walk(sub):
                     if isinstance(n, (ast.Lambda,)):
@@ -224,6 +244,8 @@ def _classify(site, st, parents, fn, reviewed):
     base = site.base
     if base is None:
         return "shared", "cannot determine the object written to"
+    if base.startswith("<outer>"):
+        return "shared", f"rebinds the variable {base[7:]} of an enclosing scope (nonlocal / global): state that persists across calls"
     if base.startswith("self."):
         if fn.name in ("__init__", "__new__"):
             return "own", "initialisation of the object's own attribute"
